@@ -2,6 +2,7 @@ package transport
 
 import (
 	"errors"
+	"github.com/scrapli/scrapligo/util/verifhook"
 	"sync"
 	"time"
 
@@ -178,6 +179,7 @@ func (t *Transport) Open() error {
 // therefore we need a way to bypass the lock.
 func (t *Transport) Close(force bool) error {
 	if !force {
+		verifhook.Acquire("tr.implLock", t.implLock)
 		t.implLock.Lock()
 		defer t.implLock.Unlock()
 	}
@@ -191,6 +193,7 @@ func (t *Transport) IsAlive() bool {
 }
 
 func (t *Transport) read(n int) ([]byte, error) {
+	verifhook.Acquire("tr.implLock", t.implLock)
 	t.implLock.Lock()
 	defer t.implLock.Unlock()
 
